@@ -591,7 +591,15 @@ func (r *resolver) stmt(stmt syntax.Stmt) {
 			id := stmt.To[i]
 			if r.options.LoadBindsGlobally {
 				r.bind(id)
-			} else if r.bindLocal(id) && !r.options.GlobalReassign {
+				continue
+			}
+			// The file block and the module block may not overlap:
+			// a load may not bind the name of an existing global.
+			if prev, ok := r.globals[id.Name]; ok && !r.options.GlobalReassign {
+				r.errorf(id.NamePos, "cannot reassign %s %s declared at %s",
+					prev.Scope, id.Name, prev.First.NamePos)
+			}
+			if r.bindLocal(id) && !r.options.GlobalReassign {
 				// "Global" in AllowGlobalReassign is a misnomer for "toplevel".
 				// Sadly we can't report the previous declaration
 				// as id.Binding may not be set yet.
